@@ -62,6 +62,44 @@ def gen_term(rng, fock=False, spin=False, spaces="ov"):
     return rem, occ, virt, idx
 
 
+def gen_twin(rng):
+    """remainder that is (anti)symmetric only under a product of transpositions of contracted
+    indices, optionally times a tensor with a target index; the fraction then uses a part of the
+    indices only (a transposition may lie completely outside of the denominator)"""
+    from adcgen.indices import get_symbols
+    from adcgen.sympy_objects import AntiSymmetricTensor, NonSymmetricTensor, Amplitude
+    i, j, k, l, a, b, c, d = get_symbols("ijklabcd")
+    pat = rng.randrange(5)
+    if pat == 0:
+        rem = NonSymmetricTensor("c", (i, k)) * NonSymmetricTensor("c", (j, l))
+        idx = [i, j, k, l]
+    elif pat == 1:
+        rem = Amplitude("Y", (a,), (i,)) * Amplitude("Y", (b,), (j,)) * \
+            NonSymmetricTensor("b", (i, j, a, b))
+        idx = [i, j, a, b]
+    elif pat == 2:
+        rem = Amplitude("t1", (c, d), (k, l)) * AntiSymmetricTensor("V", (k, l), (c, d))
+        idx = [k, l, c, d]
+    elif pat == 3:
+        rem = NonSymmetricTensor("c", (i, a)) * NonSymmetricTensor("c", (j, b)) * \
+            AntiSymmetricTensor("d0", (a, b), (i, j))
+        idx = [i, j, a, b]
+    else:
+        rem = NonSymmetricTensor("c", (i, k)) * NonSymmetricTensor("c", (j, l)) * \
+            NonSymmetricTensor("c", (a, c)) * NonSymmetricTensor("c", (b, d)) * \
+            NonSymmetricTensor("b", (i, j, a, b))
+        idx = [i, j, k, l, a, b, c, d]
+    T = []
+    if rng.random() < 0.6:
+        sp = rng.choice("ov")
+        t = get_symbols("m" if sp == "o" else "e")[0]
+        rem = rem * NonSymmetricTensor("g", (t,))
+        T = [t]
+    occ = [s for s in idx + T if s.space == "occ"]
+    virt = [s for s in idx + T if s.space == "virt"]
+    return rem, occ, virt, idx + T, T
+
+
 def gen_fraction(rng, occ, virt, max_brackets=3):
     den = S.One
     nb = rng.randint(1, max_brackets)
@@ -124,6 +162,14 @@ def run_case(item):
         return {"status": "skipped", "item": item}
     Tir = targets_of(rem)
     T = [s for s in idx if IR.idx_ir(s) in Tir]
+    twin = None
+    rng2 = random.Random(sd * 104729 + 7)
+    if op == "permute_num" and rng2.random() < 0.4:
+        rem, occ, virt, idx, T = gen_twin(rng2)
+        twin = (list(occ), list(virt))
+        # the brackets hold a part of the indices only
+        occ = rng2.sample(occ, rng2.randint(0, min(2, len(occ))))
+        virt = rng2.sample(virt, rng2.randint(0 if len(occ) == 2 else 1, min(2, len(virt))))
     res = {"item": item, "op": op, "det": []}
     val_opts = {}
     refuse = (Inputerror, NotImplementedError, RuntimeError, TypeError)
@@ -132,6 +178,10 @@ def run_case(item):
             num, den = gen_fraction(rng, occ, virt)
             if den is S.One:
                 return {"status": "skipped", "item": item}
+            if twin is not None and rng2.random() < 0.7:
+                # numerator: orbital energies of arbitrary indices of the term
+                num = Add(*[rng2.choice([1, 2, -1, Rational(1, 2)]) * _e(s_) for s_ in
+                            rng2.sample(twin[0] + twin[1], rng2.randint(1, 3))])
             term = rng.choice([1, Rational(1, 2), -2, Rational(3, 4)]) * num * rem / den
             if T and rng.random() < 0.15:
                 # a tensor with negative exponent in the remainder (on target indices only)
